@@ -8,7 +8,7 @@ try:
 except vx.Undecided as e:
     print("UNDECIDED", e); sys.exit(2)
 p = os.path.join(scratch, unit["name"] + ".rs")
-open(p, "w").write(asm.text)
+open(p, "w").write(vx.shard_text(asm, "dev") if unit.get("borrowed_spec_files") else asm.text)
 rc, js, err, dt, cmd = vx.run_verus(p, extra=sys.argv[2:])
 print(cmd, "rc", rc, "%.1fs" % dt)
 if js: print(json.dumps(js.get("verification-results"), indent=None))
